@@ -405,6 +405,19 @@ class Libs:
             'where': self._torch_where, 'sign': self._nonlinear('sign'), 'exp': self._nonlinear('exp'),
             'log': self._nonlinear('log'), 'clamp': self._nonlinear('clamp'), 'pow': self._pow,
             'no_grad': self._ctx_manager, 'enable_grad': self._ctx_manager, 'inference_mode': self._ctx_manager,
+            # functional spellings of the operators and simple algebraic equivalents
+            'add': lambda a, b, alpha=1: self.binop(operator.add, a, b if alpha == 1 else self.binop(operator.mul, b, alpha)),
+            'sub': lambda a, b, alpha=1: self.binop(operator.sub, a, b if alpha == 1 else self.binop(operator.mul, b, alpha)),
+            'mul': lambda a, b: self.binop(operator.mul, a, b), 'multiply': lambda a, b: self.binop(operator.mul, a, b),
+            'div': lambda a, b: self.binop(operator.truediv, a, b), 'true_divide': lambda a, b: self.binop(operator.truediv, a, b),
+            'neg': lambda a: self.binop(operator.mul, a, -1), 'negative': lambda a: self.binop(operator.mul, a, -1),
+            'square': lambda a: self.binop(operator.pow, a, 2),
+            'rsqrt': lambda a: self.binop(operator.pow, a, -0.5),
+            'reciprocal': lambda a: self.binop(operator.pow, a, -1),
+            'hypot': lambda a, b: self._sqrt(self.binop(operator.add, self.binop(operator.pow, a, 2),
+                                                         self.binop(operator.pow, b, 2))),
+            't': lambda x: self._torch_transpose(x, 0, 1), 'swapaxes': self._torch_transpose,
+            'swapdims': self._torch_transpose,
             'movedim': self._movedim, 'moveaxis': self._movedim, 'permute': lambda x, dims: ops.permute(x, list(dims)),
             'empty': self._torch_zeros, 'empty_like': self._zeros_like, 'flatten': self._flatten,
             'squeeze': lambda x, dim=None: self.interp.getattr(x, 'squeeze')(dim) if dim is not None else self.interp.getattr(x, 'squeeze')(),
